@@ -7,7 +7,7 @@ import numpy as np
 from .. import model as M
 from .. import oracles as O
 from ..core import digest_of, jsonable, rng_from, stream_seeds, to_np
-from ..rng import make_generator
+from ..rng import LAST_CHOICE_REQUEST, make_generator
 from ..runner import run_process
 from ..swarm import draw_smc_scenario
 from . import runs
@@ -77,6 +77,7 @@ def run_case(case, workdir):
             smp = holder.get("smp")
         h = None if smp is None else smp.history
         rec = {"n": int(a), "size": None if size is None else int(size), "p": None if p is None else np.array(p, dtype=np.float64),
+               "replace": LAST_CHOICE_REQUEST.get("replace"),
                "idx": np.array(idx), "evals_before": len(holder["res"].seam.evals)}
         if h is not None and h.sample_history:
             pop = h.sample_history[-1]
@@ -134,6 +135,10 @@ def run_case(case, workdir):
         judged += 1
         if c["n"] != len(x):
             V.append(O.violation("c09.population_size", f"choice over {c['n']} items but the population has {len(x)} particles", wc))
+        if c.get("replace") is not True:
+            # every new particle is an independent draw from the weighted population: the same source row may be drawn many times
+            V.append(O.violation("c09.without_replacement", f"resampling call {ci} asked the generator for {c['size']} of {c['n']} indices WITHOUT "
+                                 f"replacement: the draws are not independent selections by incremental weight", wc, size=c["size"], n=c["n"]))
         if c["size"] != want_size:
             V.append(O.violation("c09.size", f"resampling call {ci} requested {c['size']} draws, expected {want_size}", wc, got=c["size"], want=want_size))
         tol = dict(rtol=1e-3, atol=1e-5) if bits == 32 else dict(rtol=1e-9, atol=1e-13)
@@ -200,6 +205,9 @@ def run_case(case, workdir):
                 n_arg = None if mode in ("reversed", "tiny_step") else size
                 n_draws_before = g.n_draws
                 out = pop.resample(b_new, n_samples=n_arg, rng=g)
+                if g.n_draws != n_draws_before and LAST_CHOICE_REQUEST.get("replace") is not True:
+                    V.append(O.violation("c09.without_replacement", f"resample(beta={b_new!r}, n_samples={n_arg}) of stored population {pi} ({n} particles) "
+                                         f"asked the generator for indices WITHOUT replacement", {**where, "mode": mode}))
                 if g.n_draws == n_draws_before:
                     V.append(O.violation(
                         "c09.no_draw",
